@@ -265,7 +265,7 @@ def run_replay_file(path):
         p = subprocess.run([VENV_PY, os.path.join(ROOT, "replay", "driver.py"), path], capture_output=True, text=True,
                            timeout=120, cwd=ROOT)
         out = p.stdout + p.stderr
-        return ("REPRODUCED" in p.stdout), out
+        return any(l.strip() == "REPRODUCED" for l in p.stdout.splitlines()), out
     except Exception as e:
         return False, repr(e)
 
